@@ -74,6 +74,9 @@ def _scan(text, o):
     except CaseTimeout:
         o.exclude("slow-scan")
         return None
+    except Exception as e:  # totality is C01's business; here it must not become a harness error
+        o.exclude("scan-raised:" + type(e).__name__ + " (C01's business)")
+        return None
 
 
 def _expect(o, root, text, a, b, typ, obf, value, key):
